@@ -451,8 +451,14 @@ func (c *Ctx) elemComp(elemSort string) string {
 func (c *Ctx) cellComp(sort string) string {
 	return c.comp("C_"+sanitize(sort), "(Array Int "+sort+")")
 }
-func (c *Ctx) mapComps(k, v string) (dom, val, size string) {
-	base := sanitize(k) + "_" + sanitize(v)
+// mapCompsT: heap components of a Go map type. Components are per Go type (not per SMT sort), so maps of
+// different types can never alias even when their keys and values have the same sorts.
+func (c *Ctx) mapCompsT(t types.Type) (dom, val, size string) {
+	mt := t.Underlying().(*types.Map)
+	return c.mapCompsNamed(sanitize(shortType(mt)), c.sortOf(mt.Key()), c.sortOf(mt.Elem()))
+}
+
+func (c *Ctx) mapCompsNamed(base, k, v string) (dom, val, size string) {
 	dom = c.comp("MD_"+base, "(Array Int (Array "+k+" Bool))")
 	val = c.comp("MV_"+base, "(Array Int (Array "+k+" "+v+"))")
 	size = c.comp("MS_"+base, "(Array Int Int)")
